@@ -80,7 +80,7 @@ impl Pipes {
     Pipes { kbd_r: kr, kbd_w: kw, tab_r: tr, tab_w: tw, out_r: or, out_w: ow }
   }
 }
-impl Drop for Pipes { fn drop(&mut self) { for fd in [self.kbd_r, self.kbd_w, self.tab_r, self.tab_w, self.out_r, self.out_w] { let _ = close(fd); } } }
+impl Drop for Pipes { fn drop(&mut self) { for fd in [self.kbd_r, self.kbd_w, self.tab_r, self.tab_w, self.out_r, self.out_w] { if fd >= 0 { let _ = close(fd); } } } }
 
 /// A foreign record: something a real evdev node emits that the reader must skip.
 pub fn foreign_record(sel: u64, arg: u64, stats: &mut WireStats, tablet: bool) -> Vec<u8> {
@@ -150,6 +150,25 @@ impl ByteLayer for PipeLayer {
     self.stats.batches += 1;
     let bytes = drain(self.p.out_r);
     check_wire(&bytes, evs)
+  }
+  fn sabotage_writer(&mut self, kind: u8) {
+    match kind % 3 {
+      0 => { // queue full: the next write gets EAGAIN
+        let filler = vec![0u8; 4096];
+        for _ in 0..64 { if write(self.p.out_w, &filler).is_err() { break; } }
+        let one = [0u8; 1];
+        for _ in 0..8192 { if write(self.p.out_w, &one).is_err() { break; } }
+      }
+      1 => { // consumer gone: EPIPE (SIGPIPE is ignored in Rust binaries)
+        let _ = close(self.p.out_r); self.p.out_r = -1;
+      }
+      _ => { // EBADF
+        self.writer = DevInputWriter::verif_from_fd(-1);
+      }
+    }
+  }
+  fn raw_send(&mut self, evs: &Vec<Event>) -> Result<(), String> {
+    self.writer.send(evs).map_err(|e| format!("{}", e))
   }
 }
 
